@@ -14,6 +14,11 @@
   * SIMPLE FACES — `face_lists_each_edge_once`, `edge_fed_each_face_once`, `edge_faces_distinct`:
     faces with pairwise distinct corners (≥ 3) have pairwise distinct boundary segments, hence
     no face lists an edge twice and `edge_face_connectivity` never holds a face twice.
+  * SOURCE-SUPPLIED EDGE TABLE (round f) — `buildGiven`: the supplied table is kept and
+    `face_edge_connectivity` indexes into it; `given_meets_spec`, `buildGiven_meets_spec`: for every
+    supplied table that is the faces' edges in any order / orientation `Spec` holds with the supplied
+    table as the edge table; `lookup_orientation_irrelevant`; `buildGiven_rederived`;
+    `spec_given_unique`: `Spec` determines the face-edge table from the edge table.
   * OUTSIDE THE QUANTIFIER — `nPerFace_ok_any`, `edges_complete_any`, `edges_once_any`: three
     clauses hold on EVERY table; `asis_midfill_unsound`, `asis_leadfill_faceEdges`: the other two
     need the standard form (the code validates nothing, neither does the model).
@@ -702,6 +707,208 @@ theorem asis_leadfill_faceEdges :
 
 example : build [[0, FILL, 1, 2]] = ⟨[(0, 0), (0, 1), (1, 2)], [[0, 1, 2, FILL]], [1]⟩ := by decide
 example : ¬ StdForm 3 4 [[0, FILL, 1, 2]] := by decide
+
+/-! ### grids whose SOURCE supplies `edge_node_connectivity`: the table is kept and
+    `face_edge_connectivity` indexes into it -/
+
+/-- **only the unordered pairs of the supplied rows matter for the lookup** (which end node a row
+    lists first is irrelevant) -/
+theorem lookup_orientation_irrelevant (G G' : List (Int × Int)) (t : Table)
+    (h : G.map sortPair = G'.map sortPair) : faceEdgesInto G t = faceEdgesInto G' t := by
+  unfold faceEdgesInto lookupIn
+  rw [h]
+
+/-- looking a listed pair up yields a row joining exactly these two nodes -/
+theorem lookupIn_get (G : List (Int × Int)) (p : Int × Int) (hp : p ∈ G.map sortPair) :
+    ∃ e, getI? G (Int.ofNat (lookupIn G p)) = some e ∧ sortPair e = p := by
+  unfold lookupIn
+  have hi : (G.map sortPair).idxOf p < (G.map sortPair).length := List.idxOf_lt_length_iff.mpr hp
+  have hi' : (G.map sortPair).idxOf p < G.length := by simpa using hi
+  refine ⟨G[(G.map sortPair).idxOf p], ?_, ?_⟩
+  · rw [getI?_ofNat, List.getElem?_eq_getElem hi']
+  · have := List.getElem_idxOf hi
+    rw [List.getElem_map] at this
+    exact this
+
+/-- **`face_edge_connectivity[f, j]` is the row of the SUPPLIED table joining corners `j`, `j+1` of
+    face `f`, padding exactly where `f` has no corner** — for every supplied table that lists every
+    edge of the faces (in any order, any orientation, with or without further rows) -/
+theorem faceEdgesInto_ok {n w : Nat} {t : Table} (h : StdForm n w t) (G : List (Int × Int))
+    (hcov : ∀ p ∈ edges t, p ∈ G.map sortPair) : FaceEdgesOK t w G (faceEdgesInto G t) := by
+  refine ⟨by simp [faceEdgesInto], ?_⟩
+  intro i hi
+  have hr : t[i] ∈ t := List.getElem_mem hi
+  have hrow : rowAt t i = t[i] := rowAt_getElem t i hi
+  have hfe : rowAt (faceEdgesInto G t) i
+      = (rowPairs t[i]).map (fun p => if hasFill p then FILL else Int.ofNat (lookupIn G p)) := by
+    simp [rowAt, List.getD, faceEdgesInto, List.getElem?_eq_getElem hi]
+  rw [hrow, hfe]
+  obtain ⟨tl, htl, hfill, hlen⟩ := rowPairs_std (h _ hr)
+  have hk := faceOf_le_width (h _ hr)
+  have hplen : (rowPairs t[i]).length = w := by
+    rw [htl, List.length_append, length_rowSegs, hlen]; omega
+  refine ⟨by simp [hplen], ?_⟩
+  intro j hj
+  have hjp : j < (rowPairs t[i]).length := by omega
+  have hent : entry ((rowPairs t[i]).map
+        (fun p => if hasFill p then FILL else Int.ofNat (lookupIn G p))) j
+      = (if hasFill (rowPairs t[i])[j] then FILL else Int.ofNat (lookupIn G (rowPairs t[i])[j])) := by
+    simp [entry, List.getD, hjp]
+  rw [hent]
+  split
+  · rename_i hjk
+    have hjs : j < (rowSegs t[i]).length := by rw [length_rowSegs]; exact hjk
+    have hpj : (rowPairs t[i])[j] = (rowSegs t[i])[j] := by
+      simp only [htl]; rw [List.getElem_append_left hjs]
+    have hs : (rowSegs t[i])[j] ∈ rowSegs t[i] := List.getElem_mem hjs
+    rw [hpj, rowSegs_noFill _ _ hs]
+    obtain ⟨e, he, hse⟩ := lookupIn_get G _ (hcov _ (seg_is_edge h _ hr _ hs))
+    exact ⟨(rowSegs t[i])[j], by simp [List.getElem?_eq_getElem hjs], e, Option.mem_def.mpr he, hse⟩
+  · rename_i hjk
+    have hjs : (rowSegs t[i]).length ≤ j := by rw [length_rowSegs]; omega
+    have hpj : (rowPairs t[i])[j] ∈ tl := by
+      simp only [htl]; rw [List.getElem_append_right hjs]; exact List.getElem_mem _
+    rw [hfill _ hpj]; simp
+
+/-- **C02 with a supplied edge table**: for every standard-form table and every supplied table
+    that is the faces' edges in ANY order with ANY orientation of each row, the specification
+    holds with the supplied table itself as `edge_node_connectivity`. -/
+theorem given_meets_spec {n w : Nat} {t : Table} (h : StdForm n w t) (G : List (Int × Int))
+    (hG : (G.map sortPair).Perm (edges t)) :
+    Spec t w ⟨G, faceEdgesInto G t, nNodesPerFace t⟩ := by
+  refine ⟨?_, ?_, ?_, faceEdgesInto_ok h G (fun p hp => hG.mem_iff.mpr hp), nPerFace_ok h⟩
+  · intro e he
+    have hmem : sortPair e ∈ edges t := hG.mem_iff.mp (List.mem_map.mpr ⟨e, he, rfl⟩)
+    obtain ⟨r, hr, hs⟩ := edge_is_seg h _ hmem
+    have hnf := rowSegs_noFill r _ hs
+    have : e.1 ≠ FILL ∧ e.2 ≠ FILL := by
+      unfold hasFill sortPair at hnf
+      split at hnf <;> simp at hnf <;> simp [hnf]
+    exact ⟨this.1, this.2, r, hr, hs⟩
+  · intro r hr s hs
+    exact hG.mem_iff.mpr (seg_is_edge h r hr s hs)
+  · unfold EdgesOnce
+    have hnd : (edges t).Nodup := nodup_of_sorted pairLt_strictTotal _ (edges_sorted t)
+    exact hG.nodup_iff.mpr hnd
+
+/-- a non-empty standard-form table has an edge -/
+theorem edges_ne_nil {n w : Nat} {t : Table} (h : StdForm n w t) (ht : t ≠ []) : edges t ≠ [] := by
+  cases t with
+  | nil => exact absurd rfl ht
+  | cons r t =>
+    have hr : r ∈ r :: t := by simp
+    have hpos := (h r hr).2.1
+    have hl : 0 < (rowSegs r).length := by rw [length_rowSegs]; exact hpos
+    exact List.ne_nil_of_mem (seg_is_edge h r hr _ (List.getElem_mem hl))
+
+/-- **the supplied table is kept** (same rows, same numbering, same orientation) whenever it is
+    the faces' edges in some order and orientation … -/
+theorem buildGiven_kept {n w : Nat} {t : Table} (h : StdForm n w t) (ht : t ≠ [])
+    (G : List (Int × Int)) (hG : (G.map sortPair).Perm (edges t)) :
+    buildGiven G t = ⟨G, faceEdgesInto G t, nNodesPerFace t⟩ := by
+  have hne := edges_ne_nil h ht
+  have hGne : G ≠ [] := by
+    intro hG0; subst hG0
+    exact hne (List.Perm.nil_eq hG).symm
+  have hc : coversGiven G t = true := by
+    unfold coversGiven
+    simp only [Bool.and_eq_true, Bool.not_eq_true', List.isEmpty_eq_false_iff, List.all_eq_true,
+      List.contains_iff_mem]
+    exact ⟨⟨hne, hGne⟩, fun p hp => hG.mem_iff.mpr hp⟩
+  unfold buildGiven
+  rw [if_pos hc]
+
+/-- … and then the grid's tables meet the specification -/
+theorem buildGiven_meets_spec {n w : Nat} {t : Table} (h : StdForm n w t) (ht : t ≠ [])
+    (G : List (Int × Int)) (hG : (G.map sortPair).Perm (edges t)) :
+    Spec t w (buildGiven G t) ∧ (buildGiven G t).edges = G := by
+  rw [buildGiven_kept h ht G hG]
+  exact ⟨given_meets_spec h G hG, rfl⟩
+
+/-- a supplied table that misses an edge of a face is replaced by the derived tables -/
+theorem buildGiven_rederived {n w : Nat} {t : Table} (h : StdForm n w t) (G : List (Int × Int))
+    (p : Int × Int) (hp : p ∈ edges t) (hmiss : p ∉ G.map sortPair) :
+    buildGiven G t = build t ∧ Spec t w (buildGiven G t) := by
+  have hc : coversGiven G t = false := by
+    unfold coversGiven
+    rw [Bool.and_eq_false_iff]
+    right
+    rw [List.all_eq_false]
+    exact ⟨p, hp, by simpa using hmiss⟩
+  have : buildGiven G t = build t := by unfold buildGiven; simp [hc]
+  exact ⟨this, this ▸ build_meets_spec h⟩
+
+/-- **the edge table determines the face-edge table**: any output meeting `Spec` has
+    `face_edge_connectivity = faceEdgesInto` of its own edge table (whatever its numbering and
+    orientation) and the model's corner counts -/
+theorem spec_given_unique {n w : Nat} {t : Table} (h : StdForm n w t) (o : Out) (hs : Spec t w o) :
+    o = ⟨o.edges, faceEdgesInto o.edges t, nNodesPerFace t⟩ := by
+  obtain ⟨_, hcompl, honce, ofe, hN⟩ := hs
+  have hcov : ∀ p ∈ edges t, p ∈ o.edges.map sortPair := by
+    intro p hp
+    obtain ⟨r, hr, hseg⟩ := edge_is_seg h p hp
+    exact hcompl r hr p hseg
+  have mfe := faceEdgesInto_ok h o.edges hcov
+  have hFE : o.faceEdges = faceEdgesInto o.edges t := by
+    apply List.ext_getElem (by rw [ofe.1, mfe.1])
+    intro f hf1 hf2
+    have hf : f < t.length := by rw [← ofe.1]; exact hf1
+    have r1 := ofe.2 f hf
+    have r2 := mfe.2 f hf
+    rw [rowAt_getElem _ f hf1] at r1
+    rw [rowAt_getElem _ f hf2] at r2
+    apply List.ext_getElem (by rw [r1.1, r2.1])
+    intro j hj1 hj2
+    have hjw : j < w := by rw [← r1.1]; exact hj1
+    have s1 := r1.2 j hjw
+    have s2 := r2.2 j hjw
+    rw [entry_eq_getElem _ j hj1] at s1
+    rw [entry_eq_getElem _ j hj2] at s2
+    by_cases hjk : j < (faceOf (rowAt t f)).length
+    · rw [if_pos hjk] at s1 s2
+      obtain ⟨a, ha, ea, hea, hsa⟩ := s1
+      obtain ⟨b, hb, eb, heb, hsb⟩ := s2
+      have hab : a = b := by
+        have x := Option.mem_def.mp ha
+        have y := Option.mem_def.mp hb
+        rw [x] at y; exact Option.some.inj y
+      -- both entries point at a row whose unordered pair is `a`; each unordered pair is listed once
+      have key : ∀ (x : Int) (e : Int × Int), getI? o.edges x = some e → sortPair e = a →
+          x = Int.ofNat ((o.edges.map sortPair).idxOf a) := by
+        intro x e hx hse
+        unfold getI? at hx
+        split at hx
+        · cases hx
+        · rename_i hneg
+          obtain ⟨hlt, hget⟩ := List.getElem?_eq_some_iff.mp hx
+          have hlt' : x.toNat < (o.edges.map sortPair).length := by simpa using hlt
+          have hga : (o.edges.map sortPair)[x.toNat] = a := by simp [hget, hse]
+          have := List.Nodup.idxOf_getElem honce x.toNat hlt'
+          rw [hga] at this
+          rw [this]
+          simp only [Int.ofNat_eq_natCast]
+          omega
+      rw [key _ ea (Option.mem_def.mp hea) hsa, key _ eb (Option.mem_def.mp heb) (hsb.trans hab.symm)]
+    · rw [if_neg hjk] at s1 s2
+      rw [s1, s2]
+  have hN' : o.nPerFace = nNodesPerFace t := by
+    have := nPerFace_ok h
+    unfold NPerFaceOK at hN this
+    rw [hN, this]
+  cases o
+  simp only [Out.mk.injEq, true_and]
+  exact ⟨hFE, hN'⟩
+
+/-- non-vacuity: the triangle's edges listed backwards, two of them from the larger node -/
+example : ((([(2, 1), (0, 2), (1, 0)] : List (Int × Int)).map sortPair).Perm (edges [[2, 0, 1]])) := by
+  decide
+example : buildGiven [(2, 1), (0, 2), (1, 0)] [[2, 0, 1]] = ⟨[(2, 1), (0, 2), (1, 0)], [[1, 2, 0]], [3]⟩ := by
+  decide
+/-- a table that misses edge (0,1) is replaced -/
+example : buildGiven [(2, 1), (0, 2)] [[2, 0, 1]] = build [[2, 0, 1]] := by decide
+/-- the "kept" clause is not implied by the other clauses: the re-derived tables meet `Spec` too -/
+example : failingGiven [[2, 0, 1]] 3 [(2, 1), (0, 2), (1, 0)] (build [[2, 0, 1]]) = ["supplied_table_kept"] := by
+  decide
 
 /-! ### non-vacuity: concrete tables meeting the hypothesis (checked by kernel evaluation) -/
 
